@@ -56,6 +56,14 @@ SHAPES = [
     Shape("optlist", "Optional[List[int]]", True, False, (("val", "None"), ("fac", "list"), ("no", None)),
           ("None", "[]", "[3]")),
     Shape("tuple", "Tuple[int, ...]", False, False, (("val", "(1, 2, 3)"), ("no", None)), ("(1, 2, 3)", "(1,)")),
+    # tuple defaults whose elements have no literal (rendered element-wise by get_field_default_literal)
+    Shape("tuple_enum", "Tuple[Color, ...]", False, False,
+          (("val", "(Color.RED, Color.BLUE)"), ("val", "(Color.RED,)"), ("no", None)),
+          ("(Color.RED, Color.BLUE)", "(Color.RED,)", "()")),
+    Shape("tuple_path", "Tuple[PurePosixPath, int]", False, False, (("val", "(PurePosixPath('/a'), 1)"), ("no", None)),
+          ("(PurePosixPath('/a'), 1)", "(PurePosixPath('/b'), 2)")),
+    Shape("opt_tuple_enum", "Optional[Tuple[Color, ...]]", True, False, (("val", "(Color.BLUE,)"), ("val", "None")),
+          ("None", "(Color.BLUE,)", "(Color.RED, Color.BLUE)")),
     Shape("optfloat", "Optional[float]", True, True, (("val", "float('nan')"), ("val", "None")),
           ("None", "float('nan')", "1.0")),
 ]
@@ -112,13 +120,18 @@ def look(levels, i) -> bool:
 # materialisation as Python source
 # ---------------------------------------------------------------------------
 
-HEADER = """from dataclasses import dataclass, field
+HEADER = """import enum
+from dataclasses import dataclass, field
 from datetime import date
+from pathlib import PurePosixPath
 from typing import Any, List, Optional, Tuple, Union
 from mashumaro import DataClassDictMixin
 from mashumaro.config import (BaseConfig, TO_DICT_ADD_OMIT_NONE_FLAG, TO_DICT_ADD_BY_ALIAS_FLAG,
                               ADD_DIALECT_SUPPORT, ADD_SERIALIZATION_CONTEXT)
 from mashumaro.dialect import Dialect
+class Color(enum.Enum):
+    RED = 1
+    BLUE = 2
 """
 
 
@@ -451,14 +464,13 @@ Definition O call cfgd cfg dd srt fon fba fdl fcx kon kba :=
   {| o_call := call; o_cfgd := cfgd; o_cfg := cfg; o_dd := dd; o_sort := srt; o_fon := fon; o_fba := fba;
      o_fdl := fdl; o_fcx := fcx; o_kon := kon; o_kba := kba |}.
 Definition P n a tn tr d om := {| p_name := n; p_alias := a; p_tynull := tn; p_trivial := tr; p_default := d; p_omit := om |}.
-Definition case_ok (c: opts * list fplan * list fval * option (list (string * pv)) * (bool * bool)) : bool :=
-  match c with (o, fs, vs, expected, (py_d14, py_nan)) =>
+Definition case_ok (c: opts * list fplan * list fval * option (list (string * pv)) * bool) : bool :=
+  match c with (o, fs, vs, expected, py_d14) =>
     match to_dict_model o fs vs, expected with
     | Some l, Some e => pairs_eqb (dict_of l) e
     | None, None => true          (* TypeError *)
     | _, _ => false end
-    && Bool.eqb (negb (flag_defaults_ok o)) py_d14 && kw_ok o && vals_ok_weak fs vs
-    && Bool.eqb (negb (vals_ok fs vs)) py_nan end.
+    && Bool.eqb (negb (flag_defaults_ok o)) py_d14 && kw_ok o && vals_ok fs vs end.
 """
 
 
@@ -496,18 +508,7 @@ def coq_case(o: Opts, fields, defaults, inst, plain: dict, observed) -> str:
         exp = "None"
     else:
         exp = "(Some " + coq_list(f"({coq_str(k)}, {enc(v)})" for k, v in observed.items()) + ")"
-    nan = nan_nonnumber(fields, defaults, inst)
-    return f"({coq_opts(o)}, {fs}, {vs}, {exp}, ({coq_bool(d14_signature(o))}, {coq_bool(nan)}))"
-
-
-def nan_nonnumber(fields, defaults, inst, only_live=False) -> bool:
-    """a field whose default is NaN holds something math.isnan rejects (None, str, ...)"""
-    for f in fields:
-        d = defaults.get(f.name)
-        if isinstance(d, float) and math.isnan(d) and not (only_live and f.omit):
-            if not isinstance(getattr(inst, f.name), (int, float)):
-                return True
-    return False
+    return f"({coq_opts(o)}, {fs}, {vs}, {exp}, {coq_bool(d14_signature(o))})"
 
 
 # ---------------------------------------------------------------------------
@@ -527,7 +528,6 @@ class Eval:
     plain: object = None
     coq: str | None = None
     kind: str = ""
-    nan_zone: bool = False
 
 
 def flat_replay_dict(ev: Eval) -> dict:
@@ -555,7 +555,6 @@ def eval_flat(ns: dict, src: str, fields, o: Opts, vals, want_coq=True) -> Eval:
     e = effective(o)
     expected = project(e, fields, defaults, inst, plain)
     ev.expected = expected
-    ev.nan_zone = nan_nonnumber(fields, defaults, inst)
     try:
         observed = run_entry(o, ns, "X", inst)
     except Exception as ex:  # the property promises a mapping
@@ -567,9 +566,6 @@ def eval_flat(ns: dict, src: str, fields, o: Opts, vals, want_coq=True) -> Eval:
         if isinstance(ex, TypeError):
             if want_coq:
                 ev.coq = coq_case(o, fields, defaults, inst, plain, None)
-            if (look(o.levels(), 1) and nan_nonnumber(fields, defaults, inst, only_live=True)
-                    and "must be real number" in str(ex)):
-                ev.kind = "omit-default-nan-isnan"
         return ev
     ev.observed = observed
     if want_coq and isinstance(observed, dict):
@@ -703,26 +699,6 @@ def reachable(table, cid: int) -> set:
             seen.add(c)
             todo.extend(refs(table[c]))
     return seen
-
-
-def lazy_dialect_plain_zone(table, rid: int, rcall) -> bool:
-    """signature of known finding lazy-dialect-uncompiled-plain-nested: the call passes a dialect and reaches a
-    mixin class with lazy_compilation and ADD_DIALECT_SUPPORT that owns (directly or through plain classes) a
-    plain dataclass: that class may meet its first builder with dialect=D"""
-    if rcall is None:
-        return False
-    for m in reachable(table, rid):
-        c = table[m]
-        if c.mixin and c.o.lazy and c.o.fdl:
-            todo, seen = list(refs(c)), set()
-            while todo:
-                k = todo.pop()
-                if k in seen:
-                    continue
-                seen.add(k)
-                if not table[k].mixin:
-                    return True
-    return False
 
 
 def definition_order(rng, table) -> list[int]:
@@ -916,9 +892,61 @@ def coq_tree_value(v, enc) -> str:
     return enc(v)
 
 
+ALL_FLAGS = (True, True, True, True)
+
+
+def eval_nested(ctx: vlib.Ctx, table, order, src, ns, rid: int, t, kon, kba, rcall, ncases, ninfo, stream="nested"):
+    """one call <instance of class rid>.to_dict(...) against the hereditary reference; appends the Coq case"""
+    root = table[rid]
+    ro = replace(root.o, kon=kon, kba=kba, call=rcall)
+    rep = {"kind_of_case": "nested", "source": src, "cls": f"C{rid}", "twin": f"P{rid}",
+           "instance": tree_src(table, t, "C"), "twin_instance": tree_src(table, t, "P"), "entry": "to_dict",
+           "kwargs": kwargs_src(ro), "default_dialect": None}
+    inst = eval(rep["instance"], ns)
+    twin = eval(rep["twin_instance"], ns)
+    try:
+        plain = twin.to_dict()
+    except Exception as ex:
+        rep["expected"] = "a mapping"
+        ctx.fail(f"nested: the option-free twin raised {type(ex).__name__}: {ex}"[:300], rep,
+                 {"kind": "plain-raised-" + type(ex).__name__, "entry": stream})
+        return
+    hits: dict = {}
+    avail = (kon, kba, rcall)
+    expected = walk(table, ns, t, inst, plain, (rid,), ALL_FLAGS, avail, "spec", hits)
+    rep["expected"] = repr(expected)
+    rep["plain"] = repr(plain)
+    ctx.count((stream, repr(table), tuple(order), rid, repr(t), kon, kba, rcall))
+    ctx.hist("entry", stream)
+    try:
+        observed = inst.to_dict(**call_kwargs(ro, ns))
+    except Exception as ex:
+        rep["observed"] = f"{type(ex).__name__}: {ex}"
+        ctx.fail(f"nested {rep['instance']}.to_dict({kwargs_src(ro)}) raised {type(ex).__name__}: {ex}"[:400], rep,
+                 {"kind": "raised-" + type(ex).__name__, "entry": stream})
+        return
+    rep["observed"] = repr(observed)
+    enc = PvEnc()
+    in_domain = not hits
+    ncases.append(f"({coq_table(table, ns, enc)}, ({rid}%nat, {coq_node(table, t, inst, plain, enc)}), "
+                  f"(K {coq_ob(kon)} {coq_ob(kba)} {coq_ns(rcall)}), (Some {coq_tree_value(observed, enc)}), {coq_bool(in_domain)})")
+    ninfo.append(rep)
+    rep["_ok"] = typed(observed) == typed(expected)
+    rep["_kf_zone"] = bool(hits)
+    if typed(observed) != typed(expected):
+        kind = "nested-projection-mismatch"
+        if hits:
+            h2: dict = {}
+            predicted = walk(table, ns, t, inst, plain, (rid,), ALL_FLAGS, avail, "kf", h2)
+            if typed(predicted) == typed(observed):
+                kind = "union-member-flags" if hits.get("d8b") else "call-dialect-vs-flag-defaults"
+        ctx.fail(f"nested {rep['instance']}.to_dict({kwargs_src(ro)}) = {observed!r}, hereditary projection of the plain "
+                 f"output is {expected!r}"[:500], rep, {"kind": kind, "entry": stream})
+    ctx.hist("form", "nested-kf-zone" if hits else "nested-in-domain")
+
+
 def run_nested(ctx: vlib.Ctx, ncases: list[str], ninfo: list):
     rng = ctx.rng
-    all_flags = (True, True, True, True)
     for _ in range(ctx.budget(150, 1500)):
         table = gen_table(rng)
         order = definition_order(rng, table)
@@ -927,74 +955,53 @@ def run_nested(ctx: vlib.Ctx, ncases: list[str], ninfo: list):
         call = gen_ns(rng, 0.2) if (any(table[r].o.fdl for r in roots) and rng.random() < 0.4) else None
         src = table_source(table, call, order)
         ns = load(src)
+        ctx.hist("nested_classes", str(len(table)))
+        for c in table[1:]:
+            ctx.hist("nested_kind", "mixin" if c.mixin else ("plain+Config" if c.o != Opts() else "plain"))
         for rid in roots[:3]:
             root = table[rid]
+            ctx.hist("nested_root", "class0" if rid == 0 else "inner-mixin-as-root")
             for _ in range(2 if rid == 0 else 1):
                 kon = rng.choice([None, True, False]) if root.o.fon else None
                 kba = rng.choice([None, True, False]) if root.o.fba else None
                 rcall = call if root.o.fdl else None
-                ro = replace(root.o, kon=kon, kba=kba, call=rcall)
-                t = gen_tree(rng, table, rid)
-                rep = {"kind_of_case": "nested", "source": src, "cls": f"C{rid}", "twin": f"P{rid}",
-                       "instance": tree_src(table, t, "C"), "twin_instance": tree_src(table, t, "P"), "entry": "to_dict",
-                       "kwargs": kwargs_src(ro), "default_dialect": None}
-                inst = eval(rep["instance"], ns)
-                twin = eval(rep["twin_instance"], ns)
-                try:
-                    plain = twin.to_dict()
-                except Exception as ex:
-                    rep["expected"] = "a mapping"
-                    ctx.fail(f"nested: the option-free twin raised {type(ex).__name__}: {ex}"[:300], rep,
-                             {"kind": "plain-raised-" + type(ex).__name__, "entry": "nested"})
-                    continue
-                hits: dict = {}
-                avail = (kon, kba, rcall)
-                expected = walk(table, ns, t, inst, plain, (rid,), all_flags, avail, "spec", hits)
-                rep["expected"] = repr(expected)
-                rep["plain"] = repr(plain)
-                ctx.count(("nested", repr(table), tuple(order), rid, repr(t), kon, kba, rcall))
-                ctx.hist("entry", "nested")
-                ctx.hist("nested_classes", str(len(table)))
-                ctx.hist("nested_root", "class0" if rid == 0 else "inner-mixin-as-root")
-                for c in table[1:]:
-                    ctx.hist("nested_kind", "mixin" if c.mixin else ("plain+Config" if c.o != Opts() else "plain"))
-                try:
-                    observed = inst.to_dict(**call_kwargs(ro, ns))
-                except Exception as ex:
-                    rep["observed"] = f"{type(ex).__name__}: {ex}"
-                    kind = "raised-" + type(ex).__name__
-                    if lazy_dialect_plain_zone(table, rid, rcall) and type(ex).__name__ in ("AttributeError", "InvalidFieldValue"):
-                        # the listed finding is a FIRST-call failure (inside a Union member it is swallowed and
-                        # resurfaces as InvalidFieldValue): it must disappear after one dialect-less call
-                        try:
-                            inst.to_dict()
-                            again = inst.to_dict(**call_kwargs(ro, ns))
-                            if isinstance(again, dict):
-                                kind = "lazy-dialect-uncompiled-plain-nested"
-                        except Exception:
-                            pass
-                    ctx.fail(f"nested {rep['instance']}.to_dict({kwargs_src(ro)}) raised {type(ex).__name__}: {ex}"[:400], rep,
-                             {"kind": kind, "entry": "nested"})
-                    continue
-                rep["observed"] = repr(observed)
-                enc = PvEnc()
-                in_domain = not hits
-                ncases.append(f"({coq_table(table, ns, enc)}, ({rid}%nat, {coq_node(table, t, inst, plain, enc)}), "
-                              f"(K {coq_ob(kon)} {coq_ob(kba)} {coq_ns(rcall)}), (Some {coq_tree_value(observed, enc)}), {coq_bool(in_domain)})")
-                ninfo.append(rep)
-                rep["_ok"] = typed(observed) == typed(expected)
-                rep["_kf_zone"] = bool(hits)
-                if typed(observed) != typed(expected):
-                    kind = "nested-projection-mismatch"
-                    if hits:
-                        h2: dict = {}
-                        predicted = walk(table, ns, t, inst, plain, (rid,), all_flags, avail, "kf", h2)
-                        if typed(predicted) == typed(observed):
-                            kind = "union-member-flags" if hits.get("d8b") else "call-dialect-vs-flag-defaults"
-                    ctx.fail(f"nested {rep['instance']}.to_dict({kwargs_src(ro)}) = {observed!r}, hereditary projection of the plain "
-                             f"output is {expected!r}"[:500], rep, {"kind": kind, "entry": "nested"})
-                ctx.hist("form", "nested-kf-zone" if hits else "nested-in-domain")
+                eval_nested(ctx, table, order, src, ns, rid, gen_tree(rng, table, rid), kon, kba, rcall, ncases, ninfo)
         unload(ns)
+
+
+def run_history(ctx: vlib.Ctx, ncases: list[str], ninfo: list):
+    """systematic (every run, every seed): compile-history family.  An owner (lazy or not, with ADD_DIALECT_SUPPORT,
+    options from Config.dialect) holding a nested class (plain / plain with Config / mixin) through a direct,
+    Optional, List or Union field; the FIRST call on fresh classes passes dialect= or not, then the other one."""
+    rng = ctx.rng
+    leaf = FieldSpec("x", "optint", "val", "None", "xx", False)
+    leaf2 = FieldSpec("y", "int", "val", "1", None, False)
+    inner_kinds = [
+        NCls(Opts(), (leaf, leaf2), False),
+        NCls(Opts(cfg=("T", "U", "U"), fdl=True), (leaf, leaf2), False),
+        NCls(Opts(cfgd=("U", "T", "T"), fon=True, fdl=True), (leaf, leaf2), True),
+    ]
+    other = NCls(Opts(), (FieldSpec("z", "optint", "val", "None", None, False),), False)
+    shapes = [("direct", DcField("i", (1,), False, "in", False)), ("optional", DcField("i", (1,), True, None, False)),
+              ("list", DcField("i", (1,), False, None, False, many=True)), ("union", DcField("i", (2, 1), False, None, False))]
+    calls = [("T", "T", "T"), ("F", "U", "U")]
+    for inner in inner_kinds:
+        for sname, f in shapes:
+            for lazy in (True, False):
+                for first_with_dialect in (True, False):
+                    outer = NCls(Opts(cfgd=("T", "T", "U"), cfg=("U", "U", "U"), fdl=True, lazy=lazy,
+                                      fon=rng.random() < 0.3), (f, FieldSpec("w", "optint", "val", "None", "W", False)), True)
+                    table = [outer, inner, other]
+                    order = [2, 1, 0]
+                    call = rng.choice(calls)
+                    src = table_source(table, call, order)
+                    ns = load(src)
+                    ctx.hist("history", f"{sname}/{'mixin' if inner.mixin else 'plain'}/lazy={lazy}/first_dialect={first_with_dialect}")
+                    for with_dialect in ((True, False, True) if first_with_dialect else (False, True)):
+                        t = gen_tree(rng, table, 0)
+                        eval_nested(ctx, table, order, src, ns, 0, t, None, None, call if with_dialect else None,
+                                    ncases, ninfo, stream="history")
+                    unload(ns)
 
 
 # ---------------------------------------------------------------------------
@@ -1013,7 +1020,16 @@ def run_flat(ctx: vlib.Ctx, cases: list[str], case_info: list):
         fields = gen_fields(rng)
         o0 = gen_opts(rng, entry)
         src = flat_source(fields, o0)
-        ns = load(src)
+        try:
+            ns = load(src)
+        except Exception as ex:      # the class (with its options) cannot even be created; the option-free twin can?
+            vals = gen_values(rng, fields)
+            ev = Eval(src, o0, fields, vals, False, kind="class-creation-raised-" + type(ex).__name__,
+                      observed=f"{type(ex).__name__}: {ex}", expected="a mapping (class X must compile)")
+            ev.what = f"creating the class raised {type(ex).__name__}: {ex}"
+            ctx.count(flat_key(fields, o0, vals))
+            record_failure(ctx, ev, flat_replay_dict(ev), flat_signature(ev))
+            continue
         variants = [o0] if entry == "codec" else kw_variants(o0, rng, 2)
         for o in variants:
             for _ in range(2):
@@ -1068,9 +1084,69 @@ def run_lattice(ctx: vlib.Ctx, cases: list[str], case_info: list):
         unload(ns)
 
 
+EDGE_FIELDS = [
+    FieldSpec("nf", "optfloat", "val", "float('nan')", "NF", False),
+    FieldSpec("na", "any", "val", "float('nan')", None, False),
+    FieldSpec("pf", "float", "val", "float('nan')", None, False),
+    FieldSpec("te", "tuple_enum", "val", "(Color.RED,)", "TE", False),
+    FieldSpec("tp", "tuple_path", "val", "(PurePosixPath('/a'), 1)", None, False),
+    FieldSpec("ot", "opt_tuple_enum", "val", "(Color.BLUE,)", None, False),
+    FieldSpec("fz", "float", "val", "0.0", None, False),
+    FieldSpec("b1", "bool", "val", "True", "B1", False),
+]
+EDGE_VALUES = {
+    "nf": ["None", "float('nan')", "1.0"], "na": ["None", "'q'", "float('nan')", "1"], "pf": ["float('nan')", "0", "2.5"],
+    "te": ["(Color.RED,)", "(Color.RED, Color.BLUE)", "()"], "tp": ["(PurePosixPath('/a'), 1)", "(PurePosixPath('/b'), 2)"],
+    "ot": ["None", "(Color.BLUE,)", "(Color.RED, Color.BLUE)"], "fz": ["0", "-0.0", "False", "1.5"], "b1": ["1", "True", "False", "1.0"],
+}
+
+
+def run_edge(ctx: vlib.Ctx, cases: list[str], case_info: list):
+    """systematic (every run, every seed): defaults with a special comparison -- NaN (holding None / str / NaN /
+    numbers), tuples of enum members and paths (element-wise literal), 0.0 / True against ==-equal values of other
+    types -- under omit_default coming from Config, Config.dialect and the call dialect, crossed with omit_none,
+    the keyword features and sort_keys."""
+    rng = ctx.rng
+    vectors = []
+    for src_od in ("cfg", "cfgd", "call", "off"):
+        for on in ("U", "T"):
+            for feat in (False, True):
+                vectors.append((src_od, on, feat))
+    for src_od, on, feat in vectors:
+        od = ("U", "T", "U")
+        o = Opts(call=od if src_od == "call" else None, cfgd=od if src_od == "cfgd" else None,
+                 cfg=(on, "T" if src_od == "cfg" else "U", "U"), sort=feat, fon=feat, fba=feat, fdl=src_od == "call",
+                 lazy=(src_od == "cfgd" and feat))
+        fields = list(EDGE_FIELDS)
+        rng.shuffle(fields)
+        src = flat_source(fields, o)
+        try:
+            ns = load(src)
+        except Exception as ex:
+            vals = [EDGE_VALUES[f.name][0] for f in fields]
+            ev = Eval(src, o, fields, vals, False, kind="class-creation-raised-" + type(ex).__name__,
+                      observed=f"{type(ex).__name__}: {ex}", expected="a mapping (class X must compile)")
+            ev.what = f"creating the class raised {type(ex).__name__}: {ex}"
+            record_failure(ctx, ev, flat_replay_dict(ev), flat_signature(ev))
+            continue
+        for k in range(4):
+            vals = [EDGE_VALUES[f.name][(k + i) % len(EDGE_VALUES[f.name])] if k < 3 else rng.choice(EDGE_VALUES[f.name])
+                    for i, f in enumerate(fields)]
+            oo = replace(o, kon=rng.choice([None, True, False]) if o.fon else None)
+            ev = eval_flat(ns, src, fields, oo, vals)
+            ctx.count(("edge",) + flat_key(fields, oo, vals))
+            ctx.hist("entry", "edge-defaults")
+            if ev.coq is not None:
+                cases.append(ev.coq)
+                case_info.append(ev)
+            if not ev.ok:
+                record_failure(ctx, ev, flat_replay_dict(ev), flat_signature(ev))
+        unload(ns)
+
+
 def run(ctx: vlib.Ctx):
     ctx.coverage["rule"] = (
-        "flat: random dataclasses of 1-6 fields over 14 field shapes (nullable by type / by default None, trivial / "
+        "flat: random dataclasses of 1-6 fields over 17 field shapes (nullable by type / by default None, trivial / "
         "non-trivial packer, default value / factory / none, alias incl. colliding keys, serialize=omit) x option vector "
         "(call dialect, Config.dialect, Config in {unset,F,T}^3 each, default dialect via BasicEncoder, sort_keys, lazy, "
         "4 code generation flags, keyword arguments) x values (None / the default / ==-equal of another type / other); "
@@ -1080,7 +1156,9 @@ def run(ctx: vlib.Ctx):
         "random dependency-respecting order, direct / Optional / Union[...] / List[...] dataclass fields, EVERY mixin "
         "class used as root in random call order (a shared plain class meets its first builder through different "
         "owners), random instance trees, root keyword arguments incl. call dialect; the nested part of every output is "
-        "compared with the nested class's own projection (own plain serialization when it set nothing). "
+        "compared with the nested class's own projection (own plain serialization when it set nothing); history: "
+        "systematic owner(lazy?) x nested kind x field kind x first call with/without dialect=; edge: systematic special "
+        "defaults (NaN, tuples of enum members / paths, 0.0, True) x source of omit_default x omit_none x features. "
         "distinct = (schema shape, option vector, values)")
     ctx.trusted += [
         "OptProj.v: hand-written model of the generated to_dict body (kwargs-vs-literal form, nullable / omit_default / "
@@ -1106,15 +1184,13 @@ def run(ctx: vlib.Ctx):
         "None (vals_ok/none_ok); custom serialization strategies returning None are outside",
         "value equals default: Python == on the attribute value; a NaN default is matched by NaN",
         "excluded corners, each proved refuted in Coq and listed as a known finding: call dialect vs forwarded keyword "
-        "defaults (flag_defaults_ok), math.isnan on a non-number (nan_ok), union member flags (ok_h: flags_eqb)",
+        "defaults (flag_defaults_ok), union member flags (ok_h: flags_eqb)",
         "nested: mixin roots (codec path forwards no flags and hands its default dialect to every class by design); "
         "dataclass-typed fields have no default other than None / default_factory=list",
-        "excluded corner listed as known finding (no Coq model of compile state): lazy_compilation + ADD_DIALECT_SUPPORT "
-        "owner whose first call passes a dialect and reaches a not yet compiled plain dataclass (AttributeError)",
         "hooks, context values, format encoders (to_json ...) and lazy compilation do not change the mapping: exercised "
         "by the oracle (lazy, context flag), not part of the model",
     ]
-    thm = ["C08_project_partial", "C08_project_refuted", "C08_nan_default_refuted", "C08_project_actual",
+    thm = ["C08_project_partial", "C08_project_refuted", "C08_project_actual",
            "C08_spec_sorted", "C08_spec_values"]
     ctx.theorems("props/C08_kernel_K3.vo", ["K3_order", "K3_look"], kernels=["K3"])
     ctx.theorems("props/C08_kernel_K8.vo", ["K8_forward", "K8_use_kwargs"], kernels=["K8"])
@@ -1138,14 +1214,16 @@ def run(ctx: vlib.Ctx):
     info: list = []
     run_flat(ctx, cases, info)
     run_lattice(ctx, cases, info)
+    run_edge(ctx, cases, info)
 
     ncases: list[str] = []
     ninfo: list = []
+    run_history(ctx, ncases, ninfo)
     run_nested(ctx, ncases, ninfo)
 
     name = "to_dict-model-vs-generated-code"
     bad, log = vlib.coq_bad_idx("c08_flat", "OptProj", "", COQ_DEFS, cases, "case_ok",
-                                "opts * list fplan * list fval * option (list (string * pv)) * (bool * bool)", shard=400,
+                                "opts * list fplan * list fval * option (list (string * pv)) * bool", shard=400,
                                 needs=["theories/OptProj.vo"])
     if bad is None:
         ctx.correspondence(name, len(cases), -1, log)
@@ -1153,11 +1231,11 @@ def run(ctx: vlib.Ctx):
     else:
         # a listed finding that no longer reproduces: the faithful model still contains the defect, the
         # implementation now satisfies the property on that case -> model-stale note, not a violation
-        stale = [i for i in bad if info[i].ok and (d14_signature(info[i].o) or info[i].nan_zone)]
+        stale = [i for i in bad if info[i].ok and d14_signature(info[i].o)]
         bad = [i for i in bad if i not in set(stale)]
         if stale:
             ctx.notes.append(f"model-stale: {len(stale)} correspondence cases inside the signatures of listed findings "
-                             f"(call-dialect-vs-flag-defaults / omit-default-nan-isnan) now satisfy the property; "
+                             f"(call-dialect-vs-flag-defaults) now satisfy the property; "
                              f"the finding no longer reproduces there")
         detail = ""
         if bad:
@@ -1195,7 +1273,14 @@ def replay(rep: dict) -> int:
         for u in rep.get("not_shown", []):
             print(" -", u["name"], ":", u["detail"][:400])
         return 2
-    ns = load(rep["source"])
+    try:
+        ns = load(rep["source"])
+    except Exception as ex:
+        print("class source:\n" + rep["source"])
+        print("creating the classes raised", f"{type(ex).__name__}: {ex}")
+        print("expected :", rep["expected"])
+        print("REPRODUCED")
+        return 1
     inst = eval(rep["instance"], ns)
     twin = eval(rep["twin_instance"], ns)
     try:
